@@ -1,10 +1,10 @@
 CHECK = dict(
     level='model_checking', engine='vsched',
-    parts=[dict(name='c07rb', src=['harness/c05_ringbuf.c'], cflags=['-DC07', '-Wno-format-truncation'], workers=16,
+    parts=[dict(name='c07rb', src=['harness/c05_ringbuf.c'], cflags=['-DC07', '-Wno-format-truncation'], workers=64,
                 objs=[('@VERIF@/harness/c05_scn.c', ['-fsanitize=thread'])], deadline=dict(quick=120, thorough=1500)),
-           dict(name='c07mq', src=['harness/c04_messageq.c'], cflags=['-DC07', '-Wno-format-truncation'], workers=16,
+           dict(name='c07mq', src=['harness/c04_messageq.c'], cflags=['-DC07', '-Wno-format-truncation'], workers=64,
                 objs=[('@VERIF@/harness/c04_scn.c', ['-fsanitize=thread'])], deadline=dict(quick=150, thorough=1800)),
-           dict(name='c07fb', src=['harness/c06_fibre.c'], cflags=['-DC07', '-DPROP=6', '-Wno-format-truncation'], workers=16,
+           dict(name='c07fb', src=['harness/c06_fibre.c'], cflags=['-DC07', '-DPROP=6', '-Wno-format-truncation'], workers=64,
                 objs=[('@VERIF@/harness/c06_scn.c', ['-fsanitize=thread'])], deadline=dict(quick=150, thorough=1800))],
     rule='every execution explored for C04, C05 and C06 (same scenario sets, same explorer) with a vector-clock happens-before '
          'detector: the clocks are computed only from the memory-order argument compiled into each executed atomic operation '
